@@ -117,12 +117,14 @@ PROPS = {
     "C05": {
         "title": "Base-position messages 1005/1006 decode exactly and display to 0.1 mm",
         "design_ref": "DESIGN.md §7 C05, §4.5",
-        "technique": "Lean 4 proof (field round trip over the regenerated layouts; rejection and no-panic theorems) + differential correspondence; display exactness by exact-integer oracle (partial: float formatting not modelled)",
+        "technique": "Lean 4 proof (field round trip over the regenerated layouts; rejection and no-panic theorems; exact integer model of binary64 multiplication and %.4f with a rounding-error argument by omega) + differential correspondence incl. the float arithmetic bit for bit",
         "text": "Kernel-checked theorems: base_roundtrip (every well-formed 1005/1006 message, coordinates over the whole signed 38-bit range, any trailing payload bytes, decodes to exactly its fields), "
                 "base_rejects_wrong_type, base_rejects_short (every too-short frame is an error), base_no_panic (every byte string). Layouts 12/12/6/4/38/2/38/2/38[/16] are regenerated from the source and pinned. "
-                "The 0.1 mm display clause is PARTIAL: the decimal text is checked against exact integer arithmetic by the harness on boundary values (incl. values next to 4th-decimal rounding boundaries) and random "
-                "coordinates at both log levels; the IEEE-754 rounding argument (error <= 2^-29 << 0.5e-4) is in DESIGN.md, not in Lean.",
-        "note": "Display clause is not a theorem: Go's float64 multiplication and fmt %.4f are standard-library/hardware behaviour outside the model.",
+                "Display to 0.1 mm: display_exact proves, in an exact integer model of IEEE-754 binary64 (round-to-nearest-even to 53 bits) and of %.4f (exact value rounded to 4 decimals), that "
+                "float64(x)*0.0001 printed with %.4f shows exactly x/10^4 for EVERY 38-bit coordinate and 16-bit height (both roundings together move the value by < 2^-29); scale_constant pins the source's 0.0001 and "
+                "shows the model constant is the binary64 nearest to it. The model of the float arithmetic is tied to the hardware and to fmt bit for bit (op disp4: sign, exponent, significand and text), and the "
+                "displayed text of decoded messages is compared with exact integer decimals at both log levels.",
+        "note": "The float model covers the one expression the display uses (an exactly converted integer times one constant); exponent range/subnormals are not modelled (values lie between 2^-14 and 2^24).",
         "assumptions": ["IEEE-754 binary64 hardware arithmetic and fmt's %.4f formatting behave as documented"],
     },
     "C07": {
